@@ -208,7 +208,10 @@ def constResolves (m : Module) : Nat → String → Bool
 
 def declOk (a : Ast) (m : Module) (d : TypeDecl) : Bool :=
   match d with
-  | .const n v => isIdent n && !(reservedTypeNames.contains n) && !((bindingNamesOf m).contains n) &&
+  | .const n v => isIdent n && !(reservedTypeNames.contains n) &&
+      -- a constant named like a `let` binding or like the `d` of `d => return Err(..)` does not compile (E0530 / E0004); one named `c`
+      -- does: `c if c == E::V as ty` then reads `c` as a constant pattern (finding K14 — it compiles and decodes wrongly)
+      !(((bindingNamesOf m).filter (· != "c")).contains n) &&
       constResolves m (m.types.length + 1) v
   | .struct n g fs =>
     isIdent n && !(reservedTypeNames.contains n) && fs.all (fun f => f.2.wellFormed m && isIdent (safeName f.1)) &&
